@@ -426,6 +426,30 @@ def run_grid_case(case, ctx, kernel):
         ctx.violation(dict(facts, failure="order"),
                       f"{fn}(graded={graded}, reverse={reverse}): order {got[:10]} != {want[:10]}",
                       case)
+        return
+    if fn in ("glexindex", "bindex") and not case.get("stop_only") and len(want):
+        # a returned index array is the caller's: writing into it must not change what the
+        # same call returns afterwards (no shared / cached result arrays)
+        ctx.count("grid_repeat_after_write")
+        try:
+            call = (lambda: numpoly.glexindex(start, stop, **dimkw,
+                                              cross_truncation=trunc_arg(case["trunc"]),
+                                              graded=graded, reverse=reverse)) if fn == "glexindex" \
+                else (lambda: numpoly.bindex(start, stop, **dimkw, ordering=case["ordering"],
+                                             cross_truncation=trunc_arg(case["trunc"])))
+            first = call()
+            if isinstance(first, numpy.ndarray) and first.flags.writeable:
+                first += 7
+            again = [tuple(int(v) for v in row) for row in numpy.asarray(call()).reshape(-1, dims)]
+        except Exception as err:  # pylint: disable=broad-except
+            ctx.violation(dict(facts, failure=exc_fact(err), step="repeat"),
+                          f"{fn}: second call after writing into the first result raised "
+                          f"{type(err).__name__}: {err}", case)
+            return
+        if again != want:
+            ctx.violation(dict(facts, failure="aliased_result", step="repeat"),
+                          f"{fn}: after writing into a returned array the same call returns "
+                          f"{again[:6]} instead of {want[:6]}", case)
 
 
 def run_grid(spec, ctx):
